@@ -12,7 +12,7 @@ from quansino.moves.displacement import (
     DisplacementMove,
     HamiltonianDisplacementMove,
 )
-from quansino.moves.exchange import ExchangeMove
+from quansino.moves.exchange import CompositeExchangeMove, ExchangeMove
 from quansino.registry import register_class
 
 if TYPE_CHECKING:
@@ -34,6 +34,7 @@ moves_registry: dict[str, type[Move]] = {
     "DisplacementMove": DisplacementMove,
     "CompositeDisplacementMove": CompositeDisplacementMove,
     "ExchangeMove": ExchangeMove,
+    "CompositeExchangeMove": CompositeExchangeMove,
     "HamiltonianDisplacementMove": HamiltonianDisplacementMove,
 }
 
